@@ -294,10 +294,12 @@ func c03Files(c *Ctx) {
 						s.Tags["RG"] = pick(r, groupIDs)
 					}
 				}
-				ms = append(ms, s.MarshalText)
-				ws = append(ws, s.Write)
-				want = append(want, item{Key: samKey(s)})
-				wantRecs = append(wantRecs, item{Key: samKey(s)})
+				for reps := 1 + r.IntN(8)/7*(1+r.IntN(3)); reps > 0; reps-- { // now and then the same line two to four times in a row
+					ms = append(ms, s.MarshalText)
+					ws = append(ws, s.Write)
+					want = append(want, item{Key: samKey(s)})
+					wantRecs = append(wantRecs, item{Key: samKey(s)})
+				}
 			}
 			// all records marshalled first (results held), then written and compared
 			text.Write(heldMarshalCheck(k, ms, ws))
